@@ -160,7 +160,7 @@ def corpus_inputs(tier):
             t = b.decode('utf-8')
         except Exception:
             continue
-        if len(t) > 6000 or not t:
+        if len(t) > 9000 or not t:
             continue
         texts.append((os.path.basename(f), t))
     out = list(texts)
@@ -178,6 +178,40 @@ def corpus_inputs(tier):
             else:
                 m = t[:k] + t[k + 1 + rnd.randrange(3):]    # deletion
             out.append(('%s~%d' % (name, j), m))
+    return out + scaled_inputs(rnd, tier)
+
+
+def scaled_inputs(rnd, tier):
+    """Inputs whose size crosses the constants of the reader and the scanner: single-line flow collections longer than the
+    1024-character simple-key limit in every simple-key position, and documents whose length straddles the 4096-character
+    refill block (delivered as str and through streams).  Names start with '@' so that corpus_work adds stream delivery."""
+    out = []
+    word = lambda: ''.join(rnd.choice('abcdefgh') for _ in range(rnd.randrange(1, 9)))
+    n = 3 if tier == 'quick' else 24
+    longword = lambda: ''.join(rnd.choice('abcdefgh') for _ in range(rnd.randrange(50, 110)))
+    for j in range(4 * n):
+        target = rnd.randrange(1030, 2600)
+        items = []
+        kind = ['map', 'seqmap', 'seq', 'map'][j % 4]
+        while sum(len(x) + 2 for x in items) < target:
+            items.append({'map': '%s: %s' % (word(), word()), 'seq': word(), 'seqmap': '{%s: %s}' % (word(), word())}[kind])
+        body = ('{%s}' if kind == 'map' else '[%s]') % ', '.join(items)
+        for pos, fmt in (('root', '%s\n'), ('entry', '- %s\n- x\n'), ('qkey', '? %s\n: v\n'), ('value', 'k: %s\n'),
+                         ('key', '%s: v\n'))[:5 if j % 4 == 0 else 4]:
+            out.append(('@flow-%s-%s-%d' % (kind, pos, j), fmt % body))
+    for j in range(n):
+        block = rnd.choice([4096, 8192])
+        total = block + rnd.randrange(-3, 4)
+        lines = []
+        while sum(len(x) for x in lines) < total - 12:
+            lines.append('%s: %s\n' % (word(), longword()))          # few, long lines: the traces stay small
+        head = ''.join(lines)
+        pad = total - len(head) - len('k: ')
+        tail = 'k: ' + 'v' * max(1, min(pad, 9))
+        for end in ('', '\n'):
+            out.append(('@block-%d-%d%s' % (block, j, 'n' if end else ''), head + tail + end))
+        for extra in range(0, 9, 4):
+            out.append(('@block1-%d-%d-%d' % (block, j, extra), head + ('w: %s\n' % ('u' * extra) if extra else '') + 'count: 5'))
     return out
 
 
@@ -191,11 +225,17 @@ def corpus_work(items):
         except yaml.YAMLError:
             continue
         breaks, boms = line_structure(text)
-        for backend, L, data, length, exact in (('py', yaml.Loader, text, len(text), True),
-                                                 ('c', yaml.CLoader, text.encode('utf-8'), len(text.encode('utf-8')), False)):
+        import io
+        variants = [('py', yaml.Loader, lambda: text, len(text), True),
+                    ('c', yaml.CLoader, lambda: text.encode('utf-8'), len(text.encode('utf-8')), False)]
+        if name.startswith('@') or len(text) > 2000:
+            variants += [('py-textstream', yaml.Loader, lambda: io.StringIO(text), len(text), True),
+                         ('py-bytestream', yaml.Loader, lambda: io.BytesIO(text.encode('utf-8')), len(text), True),
+                         ('c-bytestream', yaml.CLoader, lambda: io.BytesIO(text.encode('utf-8')), len(text.encode('utf-8')), False)]
+        for backend, L, mk, length, exact in variants:
             evs, outcome, errm = [], 'ok', []
             try:
-                for ev in yaml.parse(data, Loader=L):
+                for ev in yaml.parse(mk(), Loader=L):
                     s, e = ev.start_mark, ev.end_mark
                     evs.append([type(ev).__name__[:-5], s.index, e.index, s.line, s.column, e.line, e.column])
             except yaml.YAMLError as ex:
@@ -210,7 +250,7 @@ def corpus_work(items):
             # token level
             toks, outcome, errm = [], 'ok', []
             try:
-                for tk in yaml.scan(data, Loader=L):
+                for tk in yaml.scan(mk(), Loader=L):
                     s, e = tk.start_mark, tk.end_mark
                     kind = type(tk).__name__[:-5]
                     chk, val, span = False, '', ''
